@@ -2,11 +2,29 @@
 
 
 def all_e1_records(tier):
-    """Every E1 program record of every family (used by C13: pass-through on all of them)."""
+    """Every E1 program record of every family (used by C13: pass-through and determinism on all of them)."""
+    from . import fam_basic, fam_custom, fam_reply, c06, c15, c17, model
     out = []
-    for fam in REGISTRY:
-        out.extend(fam(tier))
-    return out
-
-
-REGISTRY = []
+    out += fam_basic.e1_records(tier)
+    out += fam_custom.e1_records(tier)
+    out += fam_reply.e1_records(tier)
+    out += c06.e1_records(tier)
+    k = 0
+    for pid, where, obj, params, used, wheres in c15.programs("quick"):
+        k += 1
+        if tier == "quick" and k % 10:
+            continue
+        out.append((model.e1_contract_record if where == "contract" else model.e1_interface_record)("generic:" + pid, obj))
+    for n, (kinds, handlers, args, dk) in enumerate(c17.configs("quick")):
+        if dk == "only_exec" or (tier == "quick" and n % 4):
+            continue
+        for where in ("contract", "interface"):
+            obj = c17.build(where, kinds, handlers, args, dk)
+            out.append((model.e1_contract_record if where == "contract" else model.e1_interface_record)("attrs:%d:%s" % (n, where), obj))
+    seen, uniq = set(), []
+    for r in out:
+        if r["id"] in seen:
+            continue
+        seen.add(r["id"])
+        uniq.append(r)
+    return uniq
